@@ -144,6 +144,11 @@ fn noops_menu() -> Vec<ds::Horizontal> {
         hbox(PT, PT, PT, PT),
         // the converse: wide, but nothing to the maxima
         rule(Scaled(0), 10 * PT, Scaled(0)),
+        // every kern kind with a non-zero width
+        kern(PT, ds::KernKind::Normal),
+        kern(2 * PT, ds::KernKind::Explicit),
+        kern(3 * PT, ds::KernKind::Accent),
+        kern(-3 * PT / 2, ds::KernKind::Math),
     ]
     .into_iter()
     .chain(zero_width_tall())
@@ -167,6 +172,8 @@ fn mixed_menu() -> Vec<ds::Horizontal> {
     let mut m = non_glue_menu();
     m.extend(other_font_glyphs());
     m.extend(zero_width_tall());
+    // the two kern kinds not in the base menu (Normal and Explicit are), with non-zero width
+    m.extend([kern(3 * PT, ds::KernKind::Accent), kern(-3 * PT / 2, ds::KernKind::Math)]);
     m.extend([
         glue(PT, 2 * PT, Normal, 0, Normal),
         glue(PT, 0, Normal, 2 * PT, Normal),
@@ -577,6 +584,16 @@ fn check_list(list_idx: u64, list: &[ds::Horizontal], font: &dyn FontDyn, acc: &
     if list.iter().any(|n| matches!(n, ds::Horizontal::Char(ds::Char { char, .. }) | ds::Horizontal::Ligature(ds::Ligature { char, .. }) if char.len_utf8() >= 2)) {
         acc.count("non_ascii_glyph_in_list");
     }
+    for k in [ds::KernKind::Normal, ds::KernKind::Explicit, ds::KernKind::Accent, ds::KernKind::Math] {
+        if list.iter().any(|n| matches!(n, ds::Horizontal::Kern(kn) if kn.kind == k && kn.width.0 != 0)) {
+            acc.count(match k {
+                ds::KernKind::Normal => "kern_of_each_kind_in_list: normal",
+                ds::KernKind::Explicit => "kern_of_each_kind_in_list: explicit",
+                ds::KernKind::Accent => "kern_of_each_kind_in_list: accent",
+                ds::KernKind::Math => "kern_of_each_kind_in_list: math",
+            });
+        }
+    }
     let p0 = kp::hpack(&mlist, kp::Pack::Additional(0));
     // a rule with exactly one running dimension whose explicit other dimension is the box's maximum
     if mlist.iter().any(|n| matches!(n, kp::Node::Rule { h, d, .. } if (*h == kp::NULL_FLAG) != (*d == kp::NULL_FLAG) && ((*h == p0.height && *h > 0) || (*d == p0.depth && *d > 0)))) {
@@ -766,6 +783,15 @@ fn main() {
     ctx.require("zero_width_item_is_the_tallest_or_deepest", "an item of width 0 (rule, box, glyph, ligature) determines the height or depth of the box");
     ctx.require("glyph_with_width_but_no_height_or_depth_via_default_method", "a glyph for which the FontRepo returns Some(width) and None for height or depth, packed through the trait's default width_height_depth");
     ctx.require("glyph_with_width_but_no_height_or_depth_via_overriding_repo", "the same through a FontRepo that overrides width_height_depth");
+    for k in ["normal", "explicit", "accent", "math"] {
+        let name: &'static str = match k {
+            "normal" => "kern_of_each_kind_in_list: normal",
+            "explicit" => "kern_of_each_kind_in_list: explicit",
+            "accent" => "kern_of_each_kind_in_list: accent",
+            _ => "kern_of_each_kind_in_list: math",
+        };
+        ctx.require(name, "a kern of this kind with a non-zero width is in the list");
+    }
     ctx.require("overfull", "TeX would call the box overfull");
     ctx.require("shrink_exactly_used_up", "the target equals natural width minus the finite shrinkability (ratio exactly 1, not overfull)");
     ctx.require("shifted_box_decides_height_or_depth", "a shifted box determines the height or depth of the result");
